@@ -1,5 +1,6 @@
 """Generator of value specs (see values.py).  Two grammars:
-supported=True  -- the families property C05 lists as round-tripping exactly;
+supported=True  -- the families property C05 lists as round-tripping exactly (plus, since the repair of D10 / C13-F1, object
+                   arrays of every rank -- 0, zero-length axes -- with cells of any supported kind);
 supported=False -- additionally the kinds C04 lists (frozenset, deque, Counter, namedtuple, range, bool/None/colliding dict
                    keys, object arrays of any rank, user classes with __getstate__/__slots__/__reduce__, bound methods, ...).
 All randomness comes from the random.Random passed in."""
@@ -80,15 +81,31 @@ class VGen:
 
     def objarray(self, d):
         self.ident()
-        if self.sup:
+        if self.sup and self.r.random() < 0.4:
+            # the arrays property C05 names: non-empty, rank >= 1, cells scalars / strings / None
             n = self.r.randint(1, 4)
             cells = [self.r.choice([self.scalar_cell, self.scalar_cell])() for _ in range(n)]
             shape = [n] if self.r.random() < 0.6 or n % 2 else [n // 2, 2]
             return ["objarray", shape, cells]
-        n = self.r.choice([0, 1, 2, 4])
-        cells = [self.value(d - 1) for _ in range(n)]
-        shape = self.r.choice([[n]] + ([[2, n // 2]] if n and n % 2 == 0 else []) + ([[]] if n == 1 else []))
+        # every rank (0 included), zero-length axes, cells of any kind -- lists / tuples (the empty tuple is the very object
+        # that is the shape of a rank-0 array) and nested containers included: since the repair of D10 / C13-F1 they all keep
+        # their shape, so they belong to the mostly-valid stream as well
+        shape = self.r.choice([[], [], [], [1], [2], [3], [2, 2], [2, 2], [1, 2], [2, 1], [1, 1, 2], [2, 1, 2], [0], [2, 0], [0, 2], [1, 0, 3]])
+        n = 1
+        for k in shape:
+            n *= k
+        cells = [self.objcell(d) for _ in range(n)]
         return ["objarray", shape, cells]
+
+    def objcell(self, d):
+        k = self.r.random()
+        if k < 0.3:
+            return self.scalar_cell()
+        if k < 0.65:
+            m = self.r.randint(0, 2)
+            self.ident()
+            return [self.r.choice(["list", "tuple", "tuple"]), [self.scalar_cell() for _ in range(m)]]
+        return self.value(d - 1)
 
     def scalar_cell(self):
         return self.r.choice([["none"], ["int", 3], ["str", "s"], ["float", "0x1.8p+1"], ["bool", True]])
